@@ -468,8 +468,8 @@ def k9_store_then_meet(core, rep):
         g = fi.cfg
         stores = [n for n in g.nodes if n.kind == 'stmt' and isinstance(n.ast, ast.Assign) and any(
             isinstance(t, ast.Subscript) and self_attr(t.value) == attr for t in n.ast.targets)]
-        if not stores:
-            raise AnalysisError(f'{fi.qual}: no {what} store found (anchor vanished)')
+        if not rep.ob('K9', f'{fi.name}/stores-a-{what}', bool(stores), f'{fi.name}() no longer stores the {what} it obtained (nothing can be announced to the tracker)', _w(fi)):
+            continue
         for n in stores:
             keytxt = unparse(next(t for t in n.ast.targets if isinstance(t, ast.Subscript)).slice)
             normal = [x for x in n.succ if x.kind != 'except']
@@ -1179,6 +1179,24 @@ def k22_solution_agreement(core, rep):
     st = [n for n in ast.walk(rf.node) if isinstance(n, ast.Assign) and isinstance(n.targets[0], ast.Subscript) and self_attr(n.targets[0].value) == '_values']
     ok = len(st) == 1 and isinstance(st[0].value, ast.Call) and call_name(st[0].value) == 'from_string'
     rep.ob('K22b', 'filler-retypes-through-from_string', ok, 'the filler stores solution text without converting it through the line\'s from_string()', _w(rf))
+    # K22d every section is interpreted by a fresh instance of the class the recorded year maps its name to
+    addf = core.method('PDFFiller', '_add_form')
+    g = addf.cfg
+    app = [n for n in g.nodes if n.kind == 'stmt' and n.ast is not None and any(call_name(c) == 'append' and self_attr(c.func.value) == 'forms' for c in calls_in(n.ast))]
+    inst = [n for n in g.nodes if n.kind == 'stmt' and isinstance(n.ast, ast.Assign) and isinstance(n.ast.value, ast.Call) and isinstance(n.ast.value.func, ast.Subscript)
+            and self_attr(n.ast.value.func.value) == '_form_map']
+    ok = len(app) == 1 and len(inst) == 1 and g.dominates(inst[0], app[0]) and unparse(inst[0].ast.targets[0]) == unparse([c for c in calls_in(app[0].ast) if call_name(c) == 'append'][0].args[0]) \
+        and not [n for n in g.nodes if n.kind == 'stmt' and isinstance(n.ast, ast.Assign) and n is not inst[0] and unparse(n.ast.targets[0]) == unparse(inst[0].ast.targets[0])]
+    rep.ob('K22d', 'section-interpreted-by-its-years-class', ok,
+           'PDFFiller._add_form() does not, on every path, build the form from self._form_map[<name>](...) - e.g. a cache shared across solutions would read one year\'s solution with another year\'s line definitions', _w(addf))
+    fm = [n for n in ast.walk(core.method('PDFFiller', '__init__').node) if isinstance(n, ast.Assign) and self_attr(n.targets[0]) == '_form_map']
+    ok = len(fm) == 1 and isinstance(fm[0].value, ast.DictComp) and 'form_name' in unparse(fm[0].value.key)
+    rep.ob('K22d', 'form-map-built-from-the-given-catalogue', ok, 'the filler\'s form map is not built from the catalogue it was given', 'habutax/pdf_filler.py')
+    for rel in ('habutax/pdf_filler.py', 'habutax/values.py', 'habutax/fields.py', 'habutax/pdf_fields.py'):
+        for n in core.mods[rel].body:
+            if isinstance(n, ast.Assign) and isinstance(n.value, (ast.Dict, ast.List, ast.Set)) or (isinstance(n, ast.Assign) and isinstance(n.value, ast.Call) and call_name(n.value) in ('dict', 'list', 'set', 'defaultdict', 'OrderedDict')):
+                rep.ob('K22d', f'{rel}/no-module-level-mutable-state@{unparse(n.targets[0])}', False,
+                       f'{rel} keeps module-level mutable state `{unparse(n, 60)}`: what a solution reads back could depend on earlier solutions in the same process', f'{rel}:{n.lineno}')
     # K22c ConfigParser interpolation on user text
     for rel, c in core.all_nodes(ast.Call):
         if call_name(c) == 'ConfigParser':
@@ -1232,6 +1250,10 @@ def k23_filler(core, rep):
             ok = '\\\\' in src and '(' in src and ')' in src
         rep.ob('K23a', f'escape-function/{nm}/covers-backslash-and-parentheses', ok,
                f'{nm}() does not escape the backslash first and then both parentheses', _w(e))
+        conds = [x for x in ast.walk(e.node) if isinstance(x, (ast.If, ast.IfExp, ast.BoolOp, ast.While, ast.For, ast.Try))]
+        rets = [x for x in ast.walk(e.node) if isinstance(x, ast.Return)]
+        rep.ob('K23a', f'escape-function/{nm}/unconditional', not conds and len(rets) == 1,
+               f'{nm}() escapes conditionally ({[type(c).__name__ for c in conds][:3]}): every ( ) and \\ must be escaped whatever the rest of the text looks like', _w(e))
     # K23b selection and order
     fl = core.method('PDFFiller', 'fill')
     flt = [n for n in ast.walk(fl.node) if isinstance(n, ast.Assign) and isinstance(n.value, ast.ListComp)]
@@ -1246,6 +1268,16 @@ def k23_filler(core, rep):
     loops = [n for n in ast.walk(fl.node) if isinstance(n, ast.For) and any(call_name(c) == '_fill_form' for b in n.body for c in calls_in(b))]
     ok3 = len(loops) == 1 and unparse(loops[0].iter) == lst and not any(isinstance(x, ast.For) for b in loops[0].body for x in ast.walk(b))
     rep.ob('K23b', 'each-selected-form-filled-once', ok3, 'the loop that fills forms does not run once over the filtered, sorted list', _w(fl))
+    if ok3:
+        lv = loops[0].target.id if isinstance(loops[0].target, ast.Name) else None
+        fills = [c for b in loops[0].body for c in calls_in(b) if call_name(c) == '_fill_form']
+        outvar = unparse(fills[0].args[1]) if fills and len(fills[0].args) == 2 else None
+        asg = [x for b in loops[0].body for x in ast.walk(b) if isinstance(x, ast.Assign) and unparse(x.targets[0]) == outvar]
+        named = len(asg) == 1 and any(isinstance(c, ast.Call) and call_name(c) == 'name' and attr_text(c.func.value) == lv for c in ast.walk(asg[0].value))
+        rep.ob('K23b', 'one-output-file-per-form-instance', named and unparse(fills[0].args[0]) == lv,
+               f'the intermediate PDF of a form is not named after {lv}.name() (form name plus instance): two instances of one form would overwrite each other and one would be filed twice', _w(fl))
+        apps = [c for b in loops[0].body for c in calls_in(b) if call_name(c) == 'append' and [unparse(a) for a in c.args] == [outvar]]
+        rep.ob('K23b', 'every-filled-form-is-concatenated', len(apps) == 1, 'a filled form is not handed to the final concatenation exactly once', _w(fl))
     add = core.method('PDFFiller', '_add_form')
     app = [c for c in calls_in(add.node) if call_name(c) == 'append' and self_attr(c.func.value) == 'forms']
     rep.ob('K23b', 'one-instance-per-solution-section', len(app) == 1, 'a solution section does not map to exactly one form instance', _w(add))
@@ -1280,6 +1312,39 @@ def k23_filler(core, rep):
     pv = core.func('habutax/pdf_fields.py', 'PDFField', 'value')
     ok = any(isinstance(r.value, ast.Call) and call_name(r.value) == 'to_string' for r in ast.walk(pv.node) if isinstance(r, ast.Return))
     rep.ob('K23c', 'PDFField/default-text-is-to_string', ok, 'without a value function a box is not filled with the line\'s to_string() text', _w(pv))
+
+
+def k25_list_form_inputs(core, rep):
+    f = core.func('habutax/__init__.py', None, 'list_form_inputs')
+    inst = [n for n in ast.walk(f.node) if isinstance(n, ast.Assign) and isinstance(n.value, ast.Call) and any(k.arg == 'instance' for k in n.value.keywords) and isinstance(n.targets[0], ast.Name)]
+    if len(inst) != 1:
+        raise AnalysisError('list_form_inputs(): form instantiation not found (anchor vanished)')
+    fv = inst[0].targets[0].id
+    prints = [c for c in calls_in(f.node) if call_name(c) == 'print' and c.args and isinstance(c.args[0], ast.JoinedStr)]
+    heads = [c for c in prints if unparse(c.args[0]).startswith(("f'[", 'f"['))]
+    ok = len(heads) == 1 and any(isinstance(v, ast.FormattedValue) and unparse(v.value) == f'{fv}.name()' for v in heads[0].args[0].values) \
+        and [str(v.value) for v in heads[0].args[0].values if isinstance(v, ast.Constant)] == ['[', ']']
+    rep.ob('K25', 'section-header-is-the-instance-name', ok,
+           f'list-form-inputs does not print the section header [{{{fv}.name()}}] (form name plus instance): the template would name a section no form reads', _w(f))
+    opts = [c for c in prints if unparse(c.args[0]).startswith(("f'#{", 'f"#{'))]
+    ok = len(opts) == 1 and 'base_name()' in unparse(opts[0].args[0]) and unparse(opts[0].args[0]).rstrip("'\"").endswith(' =')
+    rep.ob('K25', 'one-commented-option-per-input', ok, 'list-form-inputs does not print `#<input base name> =` for each input', _w(f))
+    loops = [n for n in ast.walk(f.node) if isinstance(n, ast.For) and opts and any(opts[0] in list(ast.walk(b)) for b in n.body)]
+    src_ok = False
+    if loops:
+        it = unparse(loops[0].iter)
+        # the loop variable ranges over names derived from f.inputs()
+        derived = {x.targets[0].id: unparse(x.value) for x in ast.walk(f.node) if isinstance(x, ast.Assign) and isinstance(x.targets[0], ast.Name)}
+        seen = set()
+        cur = it
+        while cur in derived and cur not in seen:
+            seen.add(cur)
+            cur = derived[cur]
+        chain = ' '.join([it] + [derived[k] for k in seen])
+        src_ok = f'{fv}.inputs()' in chain or any(f'{fv}.inputs()' in v for v in derived.values())
+    rep.ob('K25', 'lists-every-input-of-the-form', bool(loops) and src_ok, 'the listed options are not derived from the inputs() of the instantiated form', _w(f))
+    checks = [n for n in ast.walk(f.node) if isinstance(n, ast.If) and 'valid_instances' in unparse(n.test)]
+    rep.ob('K25', 'instance-validated', len(checks) >= 2, 'list-form-inputs no longer validates the requested instance against valid_instances', _w(f))
 
 
 def _none_or_blank(test, v):
